@@ -288,6 +288,49 @@ def run(rep, build, tier, seed):
                                 {"kind": "transcode", "text": text, "encoding": kind, "ref_encoding": ref[0],
                                  "out": dec, "ref_out": ref[1]})
         rep.cov["transcode_runs"] = ncomm
+    # ---- character survival through the FORMATTER (the hook above bypasses it): code points of every low byte, at the end of
+    # '//' comments, of block comments, of identifiers and of string literals - the positions where passes trim, strip or
+    # compare characters.  Every code point >= 0x80 of the input must reappear in the output, in order.
+    nsurv = 0
+    with tempfile.TemporaryDirectory(prefix="c09s_", dir=common.WORK) as wd2:
+        cfg2 = os.path.join(wd2, "e.cfg")
+        open(cfg2, "w").write("")
+        bases = [0x0100, 0x0400, 0x2000, 0x3000, 0x4E00, 0xFF00, 0x1F600] if tier == "quick" else list(range(0x0100, 0x3000, 0x100)) + [0x4E00, 0x9F00, 0xAC00, 0xFF00, 0x1F600, 0x20000, 0x10FF00]
+        for base_cp in bases:
+            cps = [base_cp + k for k in range(256) if not (0xD800 <= base_cp + k <= 0xDFFF) and base_cp + k not in (0x2028, 0x2029, 0x0085, 0xFEFF, 0xFFFE, 0xFFFF)
+                   and not (0x2000 <= base_cp + k <= 0x200F) and base_cp + k not in (0x3000, 0x205F, 0x202F, 0x1680)]
+            lines = []
+            for cp in cps:
+                ch = chr(cp)
+                lines.append("int a%d; // end %s" % (cp, ch))
+                lines.append("/* block %s */ int b%d;" % (ch, cp))
+                lines.append("const char *s%d = \"%s\";" % (cp, ch))
+                lines.append("int v%d%s;" % (cp, ch))
+            text = "\n".join(lines) + "\n"
+            for enc in ("utf-8", "utf-16-le"):
+                data = (b"" if enc == "utf-8" else b"\xff\xfe") + text.encode(enc)
+                fp = os.path.join(wd2, "s.c")
+                open(fp, "wb").write(data)
+                rc_, out, err = common.run_unc(["-q", "-c", cfg2, "-l", "C", "-f", fp], timeout=120)
+                nsurv += 1
+                rep.count(key=("survival", base_cp, enc), nontrivial=True)
+                rep.validated()
+                if rc_ != 0:
+                    continue
+                try:
+                    dec = out.decode("utf-16") if enc != "utf-8" else out.decode("utf-8")
+                except UnicodeDecodeError:
+                    rep.finding("survival|undecodable|%x|%s" % (base_cp, enc), "formatter output for code points U+%04X.. (%s) is not valid %s" % (base_cp, enc, enc),
+                                {"kind": "survival", "base": base_cp, "encoding": enc})
+                    continue
+                want = [c for c in text if ord(c) >= 0x80]
+                got = [c for c in dec if ord(c) >= 0x80]
+                if want != got:
+                    k = next((i for i, (a, b) in enumerate(zip(want, got + [None] * len(want))) if a != b), 0)
+                    rep.finding("survival|lost|%x|%s" % (base_cp, enc), "a character does not survive formatting (default configuration, %s): U+%04X is lost or changed "
+                                "(%d of %d code points >= 0x80 come back; first difference at occurrence %d: a comment end, block comment, literal or identifier end)"
+                                % (enc, ord(want[k]), len(got), len(want), k), {"kind": "survival", "base": base_cp, "encoding": enc})
+    rep.cov["survival_runs"] = nsurv
     m.close()
     # verdict
     if corr_broken and not rep.violations:
